@@ -21,9 +21,18 @@ ASSUMPTIONS = ["reference order = order of (day number, second of day)",
                "mixed-kind / mixed-calendar comparisons are documented as non-comparable and not asserted",
                "position of undated lines in dsort output is not asserted"]
 
+def _ymcw5(n):
+    """count 5 is also read as 'the last': spell the last occurrence that way where it is the 4th"""
+    y, m, c, w = R.ymcw(n)
+    if c == 4 and R.mcount(y, m, w) == 4:
+        c = 5
+    return "%04d-%02d-%02d-%02d" % (y, m, c, w)
+
+
 REP = {
     "ymd": R.f_ymd,
     "ymcw": R.f_ymcw,
+    "ymcw5": _ymcw5,
     "ywd": lambda n: "%04d-W%02d-%d" % R.iso(n),
     "yd": R.f_yd,
     "bizda": R.f_bizda,
@@ -110,7 +119,7 @@ def dtest(ctx, shard, nshards):
                 sb = max(0, min(86399, sa + rnd.choice((-1, 0, 1))))
             ta, tb, ka, kb = R.hms(sa), R.hms(sb), sa, sb
             tagrep = "time"
-        elif kind == "dt" and rep in ("ymd", "ymcw", "ywd"):
+        elif kind == "dt" and rep in ("ymd", "ymcw", "ymcw5", "ywd"):
             sa, sb = rnd.choice((0, 1, 43200, 86399, rnd.randrange(86400))), rnd.choice((0, 1, 43200, 86399, rnd.randrange(86400)))
             if rnd.random() < 0.5:
                 b = a
@@ -149,9 +158,9 @@ def dgrep(ctx, shard, nshards):
     a0, b0 = slice_range(R.NMIN + 60, R.NMAX - 60, shard, nshards)
     B = [x for x in boundary() if a0 <= x < b0]
     for it in range(250 if not ctx.thorough else 3000):
-        rep = rnd.choice(("ymd", "ymd", "ymcw", "ywd", "yd", "bizda"))
+        rep = rnd.choice(("ymd", "ymd", "ymcw", "ymcw5", "ywd", "yd", "bizda"))
         a = rnd.choice(B) if rnd.random() < 0.7 else rnd.randrange(a0, b0)
-        withtime = rep in ("ymd", "ymcw", "ywd") and rnd.random() < 0.35
+        withtime = rep in ("ymd", "ymcw", "ymcw5", "ywd") and rnd.random() < 0.35
         bs = [a + d for d in range(-45, 46)] + [rnd.randrange(R.NMIN, R.NMAX + 1) for _ in range(20)]
         if rep == "bizda":
             if not R.is_bday(a):
